@@ -36,17 +36,35 @@ def reg_idx(h, reg, d):
     return z3.Select(h.get("Dict:den.$val", reg_map(h, reg)), d)
 
 
-def reg_buckets(h, reg):
-    return h.get("List.$seq", reg_list(h, reg))
+def reg_nbuckets(h, reg):
+    return h.get("AList.$len", reg_list(h, reg))
+
+
+def reg_bucket_obj(h, reg, idx):
+    return z3.Select(h.get("AList.$arr", reg_list(h, reg)), idx)
 
 
 def reg_bucket(h, reg, d):
-    """the bucket (sequence of items) registered under denotation d"""
-    return h.get("List.$seq", reg_buckets(h, reg)[reg_idx(h, reg, d)])
+    """the bucket list object registered under denotation d"""
+    return reg_bucket_obj(h, reg, reg_idx(h, reg, d))
+
+
+def bucket_len(h, b):
+    return h.get("AList.$len", b)
+
+
+def bucket_at(h, b, i):
+    return z3.Select(h.get("AList.$arr", b), i)
+
+
+def bucket_same(h1, h2, b):
+    """bucket object b has the same content in both heaps"""
+    return z3.And(bucket_len(h1, b) == bucket_len(h2, b),
+                  h1.get("AList.$arr", b) == h2.get("AList.$arr", b))
 
 
 def reg_first(h, reg, d):
-    return reg_bucket(h, reg, d)[0]
+    return bucket_at(h, reg_bucket(h, reg, d), 0)
 
 
 def unit_ok(h, u, d):
@@ -61,14 +79,14 @@ def dirinv_at(h, d, reg=M.G_TERMMAP):
     a registered key maps to a valid index of a non-empty bucket whose first
     element is a well-formed unit denoting d."""
     idx = reg_idx(h, reg, d)
-    lst = reg_buckets(h, reg)
-    bl = lst[idx]
+    bl = reg_bucket(h, reg, d)
     return z3.And(
         alloc(h, reg), alloc(h, reg_map(h, reg)), alloc(h, reg_list(h, reg)),
+        reg_nbuckets(h, reg) >= 0,
         z3.Not(h.get("Registry._unique_items", reg)),
         z3.Implies(reg_has(h, reg, d), z3.And(
-            idx >= 0, idx < z3.Length(lst), alloc(h, bl),
-            z3.Length(h.get("List.$seq", bl)) >= 1,
+            idx >= 0, idx < reg_nbuckets(h, reg), alloc(h, bl),
+            bucket_len(h, bl) >= 1,
             unit_ok(h, reg_first(h, reg, d), d))))
 
 
